@@ -15,6 +15,7 @@ import (
 
 type myInt int
 type myStr string
+type myUint uint
 type myBytes []byte
 
 type pubStruct struct {
@@ -207,6 +208,8 @@ const (
 	vkUint64Big
 	vkFloat32
 	vkSliceErr
+	vkMapUint64
+	vkMapMyUint
 	vkNumPrinter // number of fmt-compatible kinds
 )
 
@@ -225,6 +228,12 @@ const (
 	vkSliceSafe
 	vkStructSafe
 	vkNumRedact
+)
+
+// public (declared-safe) leaves of the mixed kinds; C05 makes them symbolic.
+var (
+	pubS = "pub‹"
+	pubI = 7
 )
 
 // mkValue builds the value of the given kind with leaves s (string
@@ -337,6 +346,10 @@ func mkValue(kind int, s string, i int) interface{} {
 		return float32(0.25)
 	case vkSliceErr:
 		return []error{valErr{s}, nil}
+	case vkMapUint64:
+		return map[uint64]string{uint64(1<<63) + uint64(i): s, 1: "x", 7: "y"}
+	case vkMapMyUint:
+		return map[myUint]int{myUint(1<<63) + myUint(i): 1, 2: 2}
 
 	case vkSafeStr:
 		return redact.SafeString(s)
@@ -359,9 +372,9 @@ func mkValue(kind int, s string, i int) interface{} {
 	case vkSafeRune:
 		return redact.SafeRune(rune(i))
 	case vkSliceSafe:
-		return []interface{}{redact.Safe(s), s, safeInt(i)}
+		return []interface{}{redact.Safe(pubS), s, safeInt(pubI), i}
 	case vkStructSafe:
-		return ifaceStruct{redact.Safe(s), safeStr(s)}
+		return ifaceStruct{redact.Safe(pubS), s}
 	}
 	panic("mkValue: bad kind")
 }
